@@ -129,73 +129,97 @@ Definition tsub (d : tdev) (w : words) : tres :=
       end
   end.
 
-Definition texec (d : tdev) (w : words) : tres :=
+(* the commands of the generator's object types *)
+Inductive tcmd :=
+| CExit
+| CAclInsert (n : string) (k : nat) (rest : words)      (* access-list N line K+1 REST *)
+| CAclAppend (n : string) (rest : words)
+| CAclDelete (n : string) (k : nat) (rest : words)      (* no access-list N line K+1 REST *)
+| CAclClear (n : string)
+| CPool (n : string) (def : words)
+| CNoPool (n : string) (def : words)
+| CGpNew (n : string) | CGpMode (n : string) | CGpClear (n : string)
+| CUserNew (n : string) | CUserMode (n : string) | CUserClear (n : string)
+| CTgType (n ty : string) | CTgMode (n sec : string) | CTgNoSection (n sec : string) | CTgClear (n : string)
+| CBad
+| CSub (w : words).
+
+Definition classify (w : words) : tcmd :=
   match w with
-  | ["exit"] => TOk (ttop d)
-  | "access-list" :: n :: "line" :: k :: rest =>
-      match nat_of k with
-      | Some (S k') => match insert_at k' rest (acl_of n d) with Some l => TOk (set_acl n l d) | None => TRefuse 3 end
-      | _ => TRefuse 6
+  | ["exit"] => CExit
+  | "access-list" :: n :: "line" :: k :: rest => match nat_of k with Some (S k') => CAclInsert n k' rest | _ => CBad end
+  | "access-list" :: n :: rest => CAclAppend n rest
+  | "no" :: "access-list" :: n :: "line" :: k :: rest => match nat_of k with Some (S k') => CAclDelete n k' rest | _ => CBad end
+  | ["clear"; "configure"; "access-list"; n] => CAclClear n
+  | "ip" :: "local" :: "pool" :: n :: def => CPool n def
+  | "no" :: "ip" :: "local" :: "pool" :: n :: def => CNoPool n def
+  | ["group-policy"; n; "internal"] => CGpNew n
+  | ["group-policy"; n; "attributes"] => CGpMode n
+  | ["clear"; "configure"; "group-policy"; n] => CGpClear n
+  | ["username"; n; "nopassword"] => CUserNew n
+  | ["username"; n; "attributes"] => CUserMode n
+  | ["clear"; "configure"; "username"; n] => CUserClear n
+  | ["tunnel-group"; n; "type"; ty] => CTgType n ty
+  | ["tunnel-group"; n; sec] => if is_section sec then CTgMode n sec else CBad
+  | ["no"; "tunnel-group"; n; sec] => if is_section sec then CTgNoSection n sec else CBad
+  | ["clear"; "configure"; "tunnel-group"; n] => CTgClear n
+  | "clear" :: _ => CBad
+  | "group-policy" :: _ => CBad
+  | "tunnel-group" :: _ => CBad
+  | "username" :: _ => CBad
+  | _ => CSub w
+  end.
+
+Definition exec_cmd (d : tdev) (c : tcmd) : tres :=
+  match c with
+  | CExit => TOk (ttop d)
+  | CAclInsert n k rest => match insert_at k rest (acl_of n d) with Some l => TOk (set_acl n l d) | None => TRefuse 3 end
+  | CAclAppend n rest => TOk (set_acl n (acl_of n d ++ [rest]) d)
+  | CAclDelete n k rest =>
+      match delete_at k rest (acl_of n d) with
+      | Some [] => if referenced RAcl n d then TRefuse 2 else TOk (set_acl n [] d)
+      | Some l => TOk (set_acl n l d)
+      | None => TRefuse 3
       end
-  | "access-list" :: n :: rest => TOk (set_acl n (acl_of n d ++ [rest]) d)
-  | "no" :: "access-list" :: n :: "line" :: k :: rest =>
-      match nat_of k with
-      | Some (S k') =>
-          match delete_at k' rest (acl_of n d) with
-          | Some [] => if referenced RAcl n d then TRefuse 2 else TOk (set_acl n [] d)
-          | Some l => TOk (set_acl n l d)
-          | None => TRefuse 3
-          end
-      | _ => TRefuse 6
-      end
-  | ["clear"; "configure"; "access-list"; n] =>
+  | CAclClear n =>
       if negb (vhas n (td_acls d)) then TRefuse 3
       else if referenced RAcl n d then TRefuse 2
       else TOk (tupd d (vremove n (td_acls d)) (td_pools d) (td_gps d) (td_tgs d) (td_users d) TTop)
-  | "ip" :: "local" :: "pool" :: n :: def =>
-      TOk (tupd d (td_acls d) (vset n def (td_pools d)) (td_gps d) (td_tgs d) (td_users d) TTop)
-  | "no" :: "ip" :: "local" :: "pool" :: n :: def =>
+  | CPool n def => TOk (tupd d (td_acls d) (vset n def (td_pools d)) (td_gps d) (td_tgs d) (td_users d) TTop)
+  | CNoPool n def =>
       match vlookup n (td_pools d) with
       | Some def' => if negb (words_eqb def def') then TRefuse 3
                      else if referenced RPool n d then TRefuse 2
                      else TOk (tupd d (td_acls d) (vremove n (td_pools d)) (td_gps d) (td_tgs d) (td_users d) TTop)
       | None => TRefuse 3
       end
-  | ["group-policy"; n; "internal"] =>
-      TOk (tupd d (td_acls d) (td_pools d) (if vhas n (td_gps d) then td_gps d else vset n [] (td_gps d)) (td_tgs d) (td_users d) TTop)
-  | ["group-policy"; n; "attributes"] =>
-      if vhas n (td_gps d) then TOk (tmode_set d (TGp n)) else TRefuse 3
-  | ["clear"; "configure"; "group-policy"; n] =>
+  | CGpNew n => TOk (tupd d (td_acls d) (td_pools d) (if vhas n (td_gps d) then td_gps d else vset n [] (td_gps d)) (td_tgs d) (td_users d) TTop)
+  | CGpMode n => if vhas n (td_gps d) then TOk (tmode_set d (TGp n)) else TRefuse 3
+  | CGpClear n =>
       if negb (vhas n (td_gps d)) then TRefuse 3
       else if referenced RGp n d then TRefuse 2
       else TOk (tupd d (td_acls d) (td_pools d) (vremove n (td_gps d)) (td_tgs d) (td_users d) TTop)
-  | ["username"; n; "nopassword"] =>
-      TOk (tupd d (td_acls d) (td_pools d) (td_gps d) (td_tgs d) (if vhas n (td_users d) then td_users d else vset n [] (td_users d)) TTop)
-  | ["username"; n; "attributes"] =>
-      if vhas n (td_users d) then TOk (tmode_set d (TUser n)) else TRefuse 3
-  | ["clear"; "configure"; "username"; n] =>
+  | CUserNew n => TOk (tupd d (td_acls d) (td_pools d) (td_gps d) (td_tgs d) (if vhas n (td_users d) then td_users d else vset n [] (td_users d)) TTop)
+  | CUserMode n => if vhas n (td_users d) then TOk (tmode_set d (TUser n)) else TRefuse 3
+  | CUserClear n =>
       if vhas n (td_users d) then TOk (tupd d (td_acls d) (td_pools d) (td_gps d) (td_tgs d) (vremove n (td_users d)) TTop) else TRefuse 3
-  | ["tunnel-group"; n; "type"; ty] =>
+  | CTgType n ty =>
       TOk (tupd d (td_acls d) (td_pools d) (td_gps d)
                 (vset n (ty, match vlookup n (td_tgs d) with Some (_, secs) => secs | None => [] end) (td_tgs d)) (td_users d) TTop)
-  | ["tunnel-group"; n; sec] =>
-      if negb (is_section sec) then TRefuse 6
-      else if vhas n (td_tgs d) then TOk (tmode_set d (TTg n sec)) else TRefuse 3
-  | ["no"; "tunnel-group"; n; sec] =>
-      if negb (is_section sec) then TRefuse 6
-      else match vlookup n (td_tgs d) with
-           | Some (ty, secs) =>
-               if vhas sec secs then TOk (tupd d (td_acls d) (td_pools d) (td_gps d) (vset n (ty, vremove sec secs) (td_tgs d)) (td_users d) TTop) else TRefuse 3
-           | None => TRefuse 3
-           end
-  | ["clear"; "configure"; "tunnel-group"; n] =>
+  | CTgMode n sec => if vhas n (td_tgs d) then TOk (tmode_set d (TTg n sec)) else TRefuse 3
+  | CTgNoSection n sec =>
+      match vlookup n (td_tgs d) with
+      | Some (ty, secs) =>
+          if vhas sec secs then TOk (tupd d (td_acls d) (td_pools d) (td_gps d) (vset n (ty, vremove sec secs) (td_tgs d)) (td_users d) TTop) else TRefuse 3
+      | None => TRefuse 3
+      end
+  | CTgClear n =>
       if vhas n (td_tgs d) then TOk (tupd d (td_acls d) (td_pools d) (td_gps d) (vremove n (td_tgs d)) (td_users d) TTop) else TRefuse 3
-  | "clear" :: _ => TRefuse 6
-  | "group-policy" :: _ => TRefuse 6
-  | "tunnel-group" :: _ => TRefuse 6
-  | "username" :: _ => TRefuse 6
-  | _ => tsub d w
+  | CBad => TRefuse 6
+  | CSub w => tsub d w
   end.
+
+Definition texec (d : tdev) (w : words) : tres := exec_cmd d (classify w).
 
 Fixpoint trun (d : tdev) (cs : list words) (i : nat) : tdev * nat * nat :=
   match cs with
